@@ -40,7 +40,21 @@ def kind_prefixes(repo: Repo):
 def wave_operand_bits(repo: Repo):
     """From wave_sim._wave_eval: which op column feeds which operand arm and which bit of `inputs`
     that arm toggles. Returns {op_column: bit_weight}, e.g. {2: 1, 3: 2, 4: 4, 5: 8}, plus the
-    column of the LUT and of the output."""
+    column of the LUT and of the output. Read off the operand arms of the merge loop; when the loop has another shape, the
+    weights are determined by evaluating the kernel (checks/kernel_eval.operand_weights): operand column k carries weight 2^j
+    iff the projection table x_j makes the output start at the operand's initial value."""
+    try:
+        return _wave_operand_bits(repo)
+    except ModelError as e:
+        from checks import kernel_eval
+        try:
+            w = kernel_eval.operand_weights(repo)
+        except ModelError:
+            raise e
+        return w, 0, 1, {}
+
+
+def _wave_operand_bits(repo: Repo):
     mod = repo.mod('wave_sim')
     f = mod.func('_wave_eval')
     opname = f.args.args[0].arg
